@@ -347,6 +347,8 @@ namespace foonathan
                     {
                         detail::debug_fill(stack_.top(), offset, debug_magic::alignment_memory);
                         pool.insert(stack_.top() + offset, remaining - offset);
+                        // the rest of the block now belongs to the pool
+                        stack_.bump(remaining);
                         return true;
                     }
                 }
